@@ -21,6 +21,47 @@ func (f *FnEnc) intrinsic(fr *Frame, st *State, R string, in ssa.Value, callee *
 		return true
 	}
 	switch name {
+	case "sort.Slice", "sort.SliceStable":
+		// the elements of the slice are permuted in place: new[k] = old[perm(k)]
+		// with perm a map of [0,len) into itself (an uninterpreted function per
+		// call; that it is a bijection is not used)
+		call, ok := in.(*ssa.Call)
+		if !ok {
+			return false
+		}
+		mi, ok := call.Call.Args[0].(*ssa.MakeInterface)
+		if !ok {
+			return false
+		}
+		slt, ok := mi.X.Type().Underlying().(*types.Slice)
+		if !ok {
+			return false
+		}
+		x := f.val(fr, mi.X)
+		f.c.n++
+		perm := fmt.Sprintf("perm!%d", f.c.n)
+		f.c.declareFun(perm, []string{SBV64}, SBV64)
+		f.c.assume(R, "(forall ((k!q (_ BitVec 64))) (! (=> (bvult k!q "+x.L[3]+") (bvult ("+perm+" k!q) "+x.L[3]+")) :pattern (("+perm+" k!q))))")
+		et := slt.Elem()
+		if f.l.oneCell(et) {
+			so := f.l.leafSorts(et)[0]
+			h := f.heap(st, so)
+			f.noteWrite(writeRec{Class: so, Kind: "subrange", Ref: x.L[0], Idx: x.L[1], Sub: x.L[2], SubHi: bvadd(x.L[2], x.L[3])})
+			mid := f.c.define("smid", midSort(so), sel(h, x.L[0]))
+			inner := f.c.define("sinner", innerSort(so), sel(mid, x.L[1]))
+			ninner := f.c.lambda(so, "(ite "+inRange("k!l", x.L[2], bvadd(x.L[2], x.L[3]))+" (select "+inner+" "+f.ixadd(x.L[2], "("+perm+" (bvsub k!l "+x.L[2]+"))")+") (select "+inner+" k!l))")
+			setHeap(st, so, f.c.define("H"+className(so), heapSort(so), sto(h, x.L[0], sto(mid, x.L[1], ninner))))
+		} else {
+			for _, so := range f.l.classesOf(et) {
+				h := f.heap(st, so)
+				f.noteWrite(writeRec{Class: so, Kind: "idxrange", Ref: x.L[0], Idx: x.L[1], IdxHi: bvadd(x.L[1], x.L[3])})
+				mid := f.c.define("smid", midSort(so), sel(h, x.L[0]))
+				nmid := f.c.lambda(innerSort(so), "(ite "+inRange("k!l", x.L[1], bvadd(x.L[1], x.L[3]))+" (select "+mid+" "+f.ixadd(x.L[1], "("+perm+" (bvsub k!l "+x.L[1]+"))")+") (select "+mid+" k!l))")
+				setHeap(st, so, f.c.define("H"+className(so), heapSort(so), sto(h, x.L[0], nmid)))
+			}
+		}
+		f.c.trusted["intrinsic "+name+" (permutes the elements of its slice argument in place; the comparison callback is assumed effect-free)"] = true
+		return true
 	case "math/bits.TrailingZeros32":
 		return set(tzTerm(args[0].L[0], 32))
 	case "math/bits.TrailingZeros16":
